@@ -18,6 +18,14 @@
 
 #include "../Util/TypeTraits.h"
 
+#ifdef SPECTRA_VERIF
+// Verification failpoint (off unless SPECTRA_VERIF is defined): lets a harness lower the iteration limit so that the
+// "did not converge" path runs on ordinary inputs. Defaults to the library's own limit.
+#ifndef SPECTRA_VERIF_ITER_LIMIT
+#define SPECTRA_VERIF_ITER_LIMIT(who, dflt) (dflt)
+#endif
+#endif
+
 namespace Spectra {
 
 template <typename Scalar = double>
@@ -357,7 +365,11 @@ public:
         m_T.resize(m_n, m_n);
         m_U.resize(m_n, m_n);
         constexpr Index max_iter_per_row = 40;
+#ifdef SPECTRA_VERIF
+        const Index max_iter = SPECTRA_VERIF_ITER_LIMIT("UpperHessenbergSchur", m_n * max_iter_per_row);
+#else
         const Index max_iter = m_n * max_iter_per_row;
+#endif
 
         // Scale the matrix prior to the iteration, as Eigen::RealSchur does,
         // so that products of entries neither overflow nor underflow
